@@ -283,7 +283,8 @@ func (c c02case) String() string {
 		ss += " sender-inbox-stored"
 	}
 	if c.shared > 0 {
-		ss += " " + []string{"", "carol+erin-share-a-stored-inbox", "dave+frank+carol-share-a-stored-inbox", "carol+erin-publish-one-inbox"}[c.shared]
+		ss += " " + []string{"", "carol+erin-share-a-stored-inbox", "dave+frank+carol-share-a-stored-inbox", "carol+erin-publish-one-inbox",
+			"carol+erin-publish-inboxes-differing-in-the-query", "carol+frank-stored-inboxes-differing-in-the-fragment", "carol-inbox-is-the-senders-plus-a-query"}[c.shared]
 	}
 	return fmt.Sprintf("%s placement=%d entries=[%s] K1=[%s] limit=%d%s", c.entry, c.placement, strings.Join(es, " "), strings.Join(k, " "), c.limit, ss)
 }
@@ -461,8 +462,8 @@ func C02(tier string) int {
 		if len(es) < 2 {
 			continue
 		}
-		for sh := 1; sh <= 3; sh++ {
-			if len(es) == 4 && sh == 3 {
+		for sh := 1; sh <= 6; sh++ {
+			if len(es) == 4 && sh >= 3 {
 				continue
 			}
 			cases = append(cases, c02case{entries: es, placement: 0, k1: []string{Erin, Carol}, limit: 2, entry: "Send", shared: sh})
@@ -507,7 +508,7 @@ func C02(tier string) int {
 		}
 		cases = append(cases, c02case{entries: []c02entry{sp, {id: Erin}}, placement: 1, k1: []string{Carol, gK2}, limit: 2, entry: "PostOutbox"})
 	}
-	res.Rule = fmt.Sprintf("federation graphs over {dereferencable actor, embedded actor, actor with stored inbox (remote inbox differing), actor with stored = remote inbox, missing, garbled, unknown-type, Collection K1 with every member sequence of length <= %d over 8 nodes and six member sequences of length 3-4, OrderedCollection K2 = [actor, K1], page P1 = [actor, P1, K2] (cycles), Public in both IRI spellings, the sender (named directly or as a member; with and without an inbox of its own stored by the application)}; plus every addressing sequence of length 3-4 over {plain actor, two actors with an application-stored inbox, collection, unreachable actor, sender}; plus an actor-document family (the remote actor published as Service / Group / Organization / Application, with two types (known or unknown first), with its inbox spelled as an embedded OrderedCollection / page, with a sharedInbox endpoint, with a public key under the security context, Mastodon-like with extension terms, with unknown and near-miss members, under an aliased context); plus a shared-inbox family (two or three actors for which the application knows one shared inbox, or that publish the same inbox, in every addressing sequence of length 2-4 over the reduced alphabet); plus a collection-shape family (each of Collection / OrderedCollection / CollectionPage / OrderedCollectionPage with its items member absent (totalItems + first only), empty, one, two, three or four (one repeated) members; addressed directly, next to actors, or reached through K1) and a reference-spelling family (an entry written as an embedded Mention with href only, or as an embedded Link with id and a decoy href, alone and paired with every alphabet entry); every ordered sequence of <= %d addressed entries over that 15-entry alphabet, placed in 'to' only / spread over to,bto,cc,bcc,audience / reversed; depth limit %v, and the unlimited settings 0 and -1 on the graphs without a cycle; entry points Send and client POST; %d runs; plus all two-delivery histories through one actor instance over 2 senders x 5 addressees (first) x 25 addressee pairs (second); oracle: an independent recursive function over the graph description gives the expected inbox set and the IRIs that may be dereferenced; non-trivial = runs in which something was dereferenced or delivered, distinct by (entries, placement, K1, limit)", map[bool]int{false: 1, true: 2}[res.Thorough()], maxEntries, limits, len(cases))
+	res.Rule = fmt.Sprintf("federation graphs over {dereferencable actor, embedded actor, actor with stored inbox (remote inbox differing), actor with stored = remote inbox, missing, garbled, unknown-type, Collection K1 with every member sequence of length <= %d over 8 nodes and six member sequences of length 3-4, OrderedCollection K2 = [actor, K1], page P1 = [actor, P1, K2] (cycles), Public in both IRI spellings, the sender (named directly or as a member; with and without an inbox of its own stored by the application)}; plus every addressing sequence of length 3-4 over {plain actor, two actors with an application-stored inbox, collection, unreachable actor, sender}; plus an actor-document family (the remote actor published as Service / Group / Organization / Application, with two types (known or unknown first), with its inbox spelled as an embedded OrderedCollection / page, with a sharedInbox endpoint, with a public key under the security context, Mastodon-like with extension terms, with unknown and near-miss members, under an aliased context); plus a shared-inbox family (two or three actors for which the application knows one shared inbox, or that publish the same inbox, or whose inboxes differ from each other / from the sender's only in the query or fragment, in every addressing sequence of length 2-4 over the reduced alphabet); plus a collection-shape family (each of Collection / OrderedCollection / CollectionPage / OrderedCollectionPage with its items member absent (totalItems + first only), empty, one, two, three or four (one repeated) members; addressed directly, next to actors, or reached through K1) and a reference-spelling family (an entry written as an embedded Mention with href only, or as an embedded Link with id and a decoy href, alone and paired with every alphabet entry); every ordered sequence of <= %d addressed entries over that 15-entry alphabet, placed in 'to' only / spread over to,bto,cc,bcc,audience / reversed; depth limit %v, and the unlimited settings 0 and -1 on the graphs without a cycle; entry points Send and client POST; %d runs; plus all two-delivery histories through one actor instance over 2 senders x 5 addressees (first) x 25 addressee pairs (second); oracle: an independent recursive function over the graph description gives the expected inbox set and the IRIs that may be dereferenced; non-trivial = runs in which something was dereferenced or delivered, distinct by (entries, placement, K1, limit)", map[bool]int{false: 1, true: 2}[res.Thorough()], maxEntries, limits, len(cases))
 	res.Assumptions = []string{"order of recipients and how often one IRI is dereferenced are not asserted",
 		"documents that decode to a known non-actor type or to an actor without inbox are outside the alphabet (the statement is silent; C11 covers crashes)",
 		"the stored inbox is consulted for directly addressed actors only, as the code does; collection members with a stored inbox have stored == remote inbox"}
@@ -557,6 +558,12 @@ func C02(tier string) int {
 				g[Dave].stored, g[Frank].stored, g[Carol].stored = "https://r1.example/shared/inbox", "https://r1.example/shared/inbox", "https://r1.example/shared/inbox"
 			case 3:
 				g[Carol].inbox, g[Erin].inbox = "https://r1.example/shared/inbox", "https://r1.example/shared/inbox"
+			case 4: // one endpoint, the actor in the query: two different inboxes
+				g[Carol].inbox, g[Erin].inbox = "https://r1.example/inbox?u=carol", "https://r1.example/inbox?u=erin"
+			case 5:
+				g[Carol].stored, g[Frank].stored = "https://r1.example/inbox#carol", "https://r1.example/inbox#frank"
+			case 6: // not the sender's own inbox
+				g[Carol].inbox = Alice + "/inbox?for=carol"
 			}
 			sc := &Scenario{Name: c.String(), Kind: ap.Both, Entry: c.entry, URL: outbox(Alice), Body: c.body(),
 				Tweak: func(a *ap.App) { g.install(a); a.MaxDeliverDepth = c.limit }}
